@@ -74,18 +74,26 @@ func (s *Store) compactMaybe(higher Snapshot,
 
 	var sizeBefore, sizeAfter int64
 
+	// The file that was compacted away is the one holding the old
+	// footer's segments: those of the top-level collection or, when it
+	// has none, those of its child collections.
+	var frefBefore *FileRef
 	if len(slocs) > 0 {
-		mref := slocs[0].mref
-		if mref != nil && mref.fref != nil {
-			var finfo os.FileInfo
-			if partialCompactStart == 0 {
-				finfo, err = s.removeFileOnClose(mref.fref)
-			} else {
-				finfo, err = mref.fref.file.Stat()
-			}
-			if err == nil && len(finfo.Name()) > 0 {
-				sizeBefore = finfo.Size() // Fetch old file size.
-			}
+		if mref := slocs[0].mref; mref != nil {
+			frefBefore = mref.fref
+		}
+	} else {
+		frefBefore = footer.childFileRef()
+	}
+	if frefBefore != nil {
+		var finfo os.FileInfo
+		if partialCompactStart == 0 {
+			finfo, err = s.removeFileOnClose(frefBefore)
+		} else {
+			finfo, err = frefBefore.file.Stat()
+		}
+		if err == nil && len(finfo.Name()) > 0 {
+			sizeBefore = finfo.Size() // Fetch old file size.
 		}
 	}
 
